@@ -67,6 +67,22 @@ let () =
        close_in ic;
        List.iter (fun (id, cs) -> ignore (Assign.run_case id cs obs); Buffer.add_string obs ("E " ^ id ^ "\n")) (Assign.parse_cases text);
        Buffer.add_string prog text
+   | "compare" ->
+       for k = 1 to count do
+         let id = Printf.sprintf "%s%d" (get "--prefix" "c" args) k in
+         let cs, kinds = Compare.gen_case () in
+         let o = Buffer.create 1024 in
+         if Compare.run_case id cs o then begin
+           Buffer.add_string prog (Compare.case_text id cs); Buffer.add_buffer obs o; Buffer.add_string obs ("E " ^ id ^ "\n");
+           List.iter bump kinds end
+       done
+   | "compare-run" ->
+       let ic = open_in (get "--prog" "prog.txt" args) in
+       let n = in_channel_length ic in
+       let text = really_input_string ic n in
+       close_in ic;
+       List.iter (fun (id, cs) -> ignore (Compare.run_case id cs obs); Buffer.add_string obs ("E " ^ id ^ "\n")) (Compare.parse_cases text);
+       Buffer.add_string prog text
    | "iters-run" ->
        let ic = open_in (get "--prog" "prog.txt" args) in
        let n = in_channel_length ic in
@@ -97,7 +113,7 @@ let () =
        Views.run_text text obs;
        Buffer.add_string prog text
    | _ -> usage ());
-  if cmd <> "views-run" && cmd <> "iters-run" && cmd <> "assign-run" then write (get "--prog" "prog.txt" args) prog;
+  if cmd <> "views-run" && cmd <> "iters-run" && cmd <> "assign-run" && cmd <> "compare-run" then write (get "--prog" "prog.txt" args) prog;
   write (get "--obs" "obs.txt" args) obs;
   (* distribution of what was generated, for the evidence file *)
   let items = Hashtbl.fold (fun k v acc -> (k, v) :: acc) hist [] in
